@@ -72,6 +72,22 @@ def directed(rng: random.Random, tier: str):
                 hs.round([(2, hs.sub(req[0], req[1], src_mod=42))], w, 1)
                 hs.round([(4, hs.publish(100, b"after"))], [1, 3, 4], 2)
                 out.append(hs)
+    # death in the middle of its own connection request: the client listens to everything before it connects, the
+    # manager logs while it examines the request (debug level), the forwarded log line is the write that fails - the
+    # request must not register the departed client anywhere (it asked to be a logger)
+    for lvl in (10, 20):
+        for v2 in (True, False):
+            for named in (True, False):
+                hs = C.History(loglevel=lvl, tag="dies-while-connecting")
+                hs.round([], [], 0, accept=True)
+                hs.round([], [], 0, accept=True)
+                hs.round([(1, hs.connect_v1(src_mod=10))], [1, 2], 0)
+                hs.round([(2, hs.sub("sub", C.ALL))], [1, 2], 0)
+                hs.fault(2, 0)
+                hs.round([(2, hs.connect_v2(logger=1, mod_id=20, name=b"nm" if named else b"") if v2
+                           else hs.connect_v1(logger=1, src_mod=20))], [1, 2], 1)
+                hs.round([(1, hs.publish(100, b"x", src_mod=10))], [1], 2)
+                out.append(hs)
     return out
 
 
